@@ -256,6 +256,8 @@ def near(draw, t, v):
     if p in ("bytes",):
         k = draw(st.integers(0, 2))
         return v + b"\x00" if k == 0 else (v[:-1] if k == 1 and v else b"\x01" + v)
+    if p == "signature" and draw(st.integers(0, 2)) == 0:
+        return v  # the same bytes again (possibly spelled under another prefix by the caller)
     if p in ("key_hash", "chain_id", "signature"):
         b = bytearray(v)
         i = draw(st.integers(0, len(b) - 1))
@@ -263,6 +265,11 @@ def near(draw, t, v):
         if p == "key_hash":
             b[0] %= 4
         return bytes(b)
+    if p == "key":  # another key of the same curve (the deciding byte is then the parity flag or a coordinate byte), or any key
+        if draw(st.integers(0, 3)):
+            curve = {0: "ed", 1: "sp", 2: "p2", 3: "BL"}[v[0]]
+            return draw(st.sampled_from(key_pool(curve)))
+        return draw(values(t))
     if p == "address":
         b, ep = v
         k = draw(st.integers(0, 5))
